@@ -838,7 +838,14 @@ def run_impl(cases):
                                    rel(t.source_file_path, base), rel(t.source_file_path_to_root, base),
                                    [f.name for f in (t.request_type if isinstance(t, pydsdl.ServiceType) else t).fields]]
                                   for t in direct], key=lambda x: (x[4], x[0]))
-                    obs.append({"r": "ok", "ids": ids})
+                    secs = sorted([[x.full_name, int(x.version.major), int(x.version.minor), x.fixed_port_id,
+                                    rel(x.source_file_path, base), rel(x.source_file_path_to_root, base)]
+                                   for t in direct if isinstance(t, pydsdl.ServiceType) for x in (t.request_type, t.response_type)],
+                                  key=lambda x: (x[4], x[0]))
+                    for t in direct:   # has_fixed_port_id must agree with fixed_port_id, also on the sections
+                        for x in ([t, t.request_type, t.response_type] if isinstance(t, pydsdl.ServiceType) else [t]):
+                            assert bool(x.has_fixed_port_id) == (x.fixed_port_id is not None)
+                    obs.append({"r": "ok", "ids": ids, "secs": secs})
                 except Exception as ex:  # pylint: disable=broad-except
                     obs.append({"r": classify(ex)})
                 finally:
@@ -891,7 +898,7 @@ def emit(case, obs):
         else:
             ce = "(C15.CNamespace %s %s %s)" % (e_comps(c["cwd"]), e_path(c["root"]), e_paths(c["lookups"]))
         if ob["r"] == "ok":
-            oe = "(C15.OOk %s)" % G.lst([e_ident(i) for i in ob["ids"]])
+            oe = "(C15.OOk %s %s)" % (G.lst([e_ident(i) for i in ob["ids"]]), G.lst([e_ident(i) for i in ob.get("secs", [])]))
         else:
             oe = "(C15.OErr %s)" % ob["r"]
         calls.append("(%s, %s)" % (ce, oe))
